@@ -6,6 +6,7 @@ import NbioVerif.Lemmas.BodyReader
 import NbioVerif.Lemmas.BodyOwn
 import NbioVerif.Lemmas.C06Bridge
 import NbioVerif.Lemmas.C08Held
+import NbioVerif.Lemmas.C08Retained0
 /-! C08: parser robustness and bounds (model level).
 
 * `c08_no_hang`        the Go-shaped index loop never runs out of fuel (fuel = |buf|+1), i.e. the
@@ -158,6 +159,35 @@ theorem c08_body_bound (g : Cfg) (st : P) (cache data : Bytes) (acc : List Ev) (
     (fun st d s' u evs hi hs => blockDone_bodyInv g st d s' u evs hi hs) st cache data acc hI acc' st' cache' h
 
 theorem c08_body_bound_init (g : Cfg) : BodyInv g (init g) := by intro _; simp [init]
+
+/-- **C08 (retained bytes, any ReadLimit — 0 included), partial.** Along every chain of `Parse` calls from a fresh
+    parser, in any segmentation: what the parser retains is a suffix of what it has received (the most recent bytes,
+    nothing else, never more than was read); and while a body block is awaited — the rest of a Content-Length body, a
+    chunk — fewer bytes are retained than the block still needs. Not bounded with ReadLimit = 0: an unfinished token or
+    line outside a body (`c08_retained_readlimit0_counterexample`), and the declared block size itself. -/
+theorem c08_retained_readlimit0_partial (g : Cfg) (limit : Nat) (segs : List Bytes) acc' st' cache'
+    (h : feedAllL (machine g) limit (init g) [] segs [] = ⟨acc', .inl (st', cache')⟩) :
+    (∃ pre, pre ++ cache' = segs.flatten) ∧ cache'.length ≤ segs.flatten.length ∧
+    (∀ n, block st' = some n → cache'.length < n) ∧
+    (st'.st = .bodyContentLength → st'.contentLength > 0 → cache'.length < st'.contentLength.toNat) ∧
+    (st'.st = .chunkData → st'.chunkSize > 0 → cache'.length < st'.chunkSize.toNat) := by
+  obtain ⟨pre, e⟩ := feedAllL_cache_suffix (machine g) limit segs (init g) [] [] acc' st' cache' h
+  simp only [List.nil_append] at e
+  have hg : Good (machine g) st' cache' :=
+    feedAllL_good (machine g) (wf g) limit segs (init g) [] [] (fun n hn => (wf g).pos _ _ hn) acc' st' cache' h
+  refine ⟨⟨pre, e⟩, ?_, hg, ?_, ?_⟩
+  · rw [← e, List.length_append]; omega
+  · intro hs hc; exact hg _ (by simp [machine, block, hs, hc])
+  · intro hs hc; exact hg _ (by simp [machine, block, hs, hc])
+
+/-- **C08 (retained bytes, ReadLimit = 0), counterexample to a bound.** With the limit off, an unfinished header line is
+    retained whole: here 300 bytes of a field value without a line end; nothing in the parser stops this at any size. -/
+theorem c08_retained_readlimit0_counterexample :
+    let gs : Cfg := { isClient := false, maxBody := 0, urlOk := fun _ => true, protoOk := fun _ => true }
+    (match (feedAllL (machine gs) 0 (init gs) []
+        [str "GET / HTTP/1.1\r\nX:", List.replicate 150 97, List.replicate 150 98] []).fin with
+      | .inl (_, cache) => cache.length | .inr _ => 0) = 300 := by
+  set_option maxRecDepth 100000 in decide
 
 /-- C08 (body bound, event level): `bodyHeld` is not a ghost — after every `Parse` call of every chain from a fresh
     parser (any segmentation, any ReadLimit) it equals the number of body bytes handed to `OnBody` since the last
